@@ -551,9 +551,11 @@ class Ctx:
                         if not _refine_lemmas(apps, m2):
                             m = m2
                             s.pop()
+                            ob['nice'] = True
                             break
                     s.pop()
-        if r == 'unknown':
+        if r == 'unknown' or (r == 'sat' and self._input_order and not ob.get('nice')):
+            # unknown, or a model with extreme values (the float replay would drown in rounding): look for a moderate witness
             env = self.numeric_witness(neg)
             if env is not None:
                 r, stage, m = 'sat', 'numeric-witness', None
